@@ -277,6 +277,14 @@ def mon_c14(c):
         o = parse_list(c.obs.get(tag, '-'), ' ')
         if not respects(o, n, e):
             return '%s order %s is not a dependency order of the built graph' % (tag, o)
+    for tag, rev in (('CLI', False), ('CLR', True), ('CFI', False), ('CFR', True), ('CGI', False), ('CGR', True)):
+        if tag in c.obs:
+            o = parse_list(c.obs[tag], ' ')
+            ee = [(b, a, k) for (a, b, k) in e] if rev else e
+            if not respects(o, n, ee):
+                return 'iteration of a clone()/clone_from() copy (%s) visited %s: not every function once in %sdependency order' % (tag, o, 'reverse ' if rev else '')
+    if c.obs.get('CEQ', '1') != '1':
+        return 'a graph assigned with clone_from() does not compare equal to its source'
     for tag in ('PM1', 'PM2', 'PM3', 'PM4'):
         if tag in c.obs:
             o = parse_list(c.obs[tag], ' ')
@@ -336,6 +344,8 @@ def mon_c17(c):
         return 'GraphInfo::iter_rev not reverse topological'
     if c.obs.get('GSI') != c.obs.get('GI'):
         return 'iteration order changed by the round trip'
+    if 'GS2' in c.obs and c.obs['GS2'].split() != ['1', '1']:
+        return 'round trip through a serde Value / a reader did not yield an equal value (GS2=%s)' % c.obs['GS2']
     return None
 
 
